@@ -395,6 +395,15 @@ func (w *worker) do(leaderIndex uint64, session *client.Session) (replicateResul
 	}
 	ctx, cancel := context.WithTimeout(context.Background(), w.logTimeout)
 	defer cancel()
+	// Stop replicating as soon as the worker is closed: the lease is no longer renewed then and another node
+	// may take the table over while this round is still proposing.
+	go func() {
+		select {
+		case <-w.closer:
+			cancel()
+		case <-ctx.Done():
+		}
+	}()
 	stream, err := w.logClient.Replicate(ctx, replicateRequest, grpc.WaitForReady(true))
 	if err != nil {
 		if c, ok := status.FromError(err); ok && c.Code() == codes.Unavailable {
